@@ -85,6 +85,11 @@ pub fn absorb(prop: Prop, out: &mut RunOutcome, anomalies: Vec<Anomaly>, fatal: 
             }
             stop = true;
         } else {
+            if let Some(want) = std::env::var_os("GSIM_DEBUG_FOREIGN") {
+                if want.to_str() == Some(a.class) {
+                    eprintln!("foreign run={} {} {}#{}: {}", crate::CURRENT_RUN.load(std::sync::atomic::Ordering::Relaxed), a.class, a.op_kind, a.op_index, a.detail);
+                }
+            }
             out.foreign.push(a.class);
         }
     }
